@@ -1,0 +1,47 @@
+//go:build verif
+// +build verif
+
+package segment
+
+import "time"
+
+// Verification hooks (build tag "verif"). Add-only; not compiled into normal builds.
+
+// VerifNode is a structural dump of one node of the time-segment tree. Children has one entry
+// per child slot (nil for an empty slot); it is empty for depth-0 nodes.
+type VerifNode struct {
+	Depth    int
+	Time     time.Time
+	Present  bool
+	Samples  uint64
+	Writes   uint64
+	Children []*VerifNode
+}
+
+func verifDump(n *streeNode) *VerifNode {
+	if n == nil {
+		return nil
+	}
+	r := &VerifNode{Depth: n.depth, Time: n.time, Present: n.present, Samples: n.samples, Writes: n.writes}
+	for _, c := range n.children {
+		r.Children = append(r.Children, verifDump(c))
+	}
+	return r
+}
+
+// VerifDump returns a deep copy of the segment tree (nil when the segment is empty).
+func (s *Segment) VerifDump() *VerifNode {
+	s.m.RLock()
+	defer s.m.RUnlock()
+	return verifDump(s.root)
+}
+
+// VerifDurations returns the bucket width per depth.
+func VerifDurations() []time.Duration {
+	return durations
+}
+
+// VerifNormalize exposes normalize().
+func VerifNormalize(st, et time.Time) (time.Time, time.Time) {
+	return normalize(st, et)
+}
